@@ -101,9 +101,13 @@ def _is_terminal_key(ex, key, node_ast):
   if isinstance(key, VStr) and key.concrete() == TERMINAL:
     return True
   if isinstance(key, VStr):
-    ex.path.oblige(f'{ex.contract.qual}/tree/component_is_not_the_terminal_key'
-                   f'#{getattr(node_ast, "lineno", 0)}', key.e != sym.str_lit(TERMINAL))
-    ex.path.assume(key.e != sym.str_lit(TERMINAL))
+    # a symbolic key: both cases are explored (the '$' case is infeasible wherever the
+    # key is a component of a valid name)
+    if ex.path.decide(key.e == sym.str_lit(TERMINAL)):
+      if not ex.path.feasible():
+        from pyvc.exec import PathEnd
+        raise PathEnd()
+      return True
     return False
   raise OutOfSubset('tree key is not a string', node_ast)
 
